@@ -203,6 +203,22 @@ func (x *fnCtx) explore() {
 // vacuously. Such a clause is reported as an obligation that cannot be discharged (the author
 // states the prefix with `loop N trace_entry` and the rest with unanchored patterns instead).
 func (x *fnCtx) undecidedTraceClauses() {
+	if !x.collecting && x.con != nil && !x.eng.cfg.Layers["trace"] {
+		// said out loud in the abstraction log of the evidence: this property's configuration
+		// leaves the trace layer off, so trace clauses of this function are not decided for it
+		n := 0
+		for _, cl := range x.con.Clauses {
+			switch cl.Kind {
+			case "trace_ensures", "trace_panics", "trace_step", "trace_entry":
+				if cl.appliesTo(x.eng.prop) {
+					n++
+				}
+			}
+		}
+		if n > 0 {
+			x.eng.logAbs("%s: %d trace clause(s) are not decided for %s (props.json: trace layer off)", x.short, n, x.eng.prop)
+		}
+	}
 	if x.collecting || x.con == nil || !x.eng.cfg.Layers["trace"] || (x.con.OnlyLayers != nil && !x.con.OnlyLayers["trace"]) {
 		return
 	}
